@@ -134,16 +134,19 @@ macro_rules! with_graph_kmer {
             30 => $f::<debruijn::kmer::Kmer30>($($args),*),
             31 => $f::<debruijn::kmer::VarIntKmer<u64, debruijn::kmer::K31>>($($args),*),
             32 => $f::<debruijn::kmer::Kmer32>($($args),*),
+            33 => $f::<debruijn::kmer::VarIntKmer<u128, $crate::util::K33>>($($args),*),
             40 => $f::<debruijn::kmer::Kmer40>($($args),*),
+            41 => $f::<debruijn::kmer::VarIntKmer<u128, $crate::util::K41>>($($args),*),
             48 => $f::<debruijn::kmer::Kmer48>($($args),*),
+            63 => $f::<debruijn::kmer::VarIntKmer<u128, $crate::util::K63>>($($args),*),
             64 => $f::<debruijn::kmer::Kmer64>($($args),*),
             _ => panic!("unsupported K"),
         }
     };
 }
 
-pub const QUICK_KS: [usize; 11] = [4, 5, 6, 8, 12, 16, 31, 32, 40, 48, 64];
-pub const ALL_KS: [usize; 17] = [4, 5, 6, 8, 10, 12, 14, 15, 16, 20, 24, 30, 31, 32, 40, 48, 64];
+pub const QUICK_KS: [usize; 12] = [4, 5, 6, 8, 12, 16, 31, 32, 40, 41, 48, 64];
+pub const ALL_KS: [usize; 20] = [4, 5, 6, 8, 10, 12, 14, 15, 16, 20, 24, 30, 31, 32, 33, 40, 41, 48, 63, 64];
 
 pub fn pick_k(rng: &mut Rng, tier: &str) -> usize {
     // small K dominates: dense branching, palindromes and hairpins are frequent there
